@@ -32,6 +32,8 @@ typedef struct {
     int64_t msg_len_prev[2];
     uint64_t raw_out_of_window;
     uint32_t trace;           /* HTP_VERIF_TRACE sites that fired with this tx */
+    int64_t offered_at_start[2];  /* bytes offered to the direction before the call in which this side of the tx started */
+    int started[2];
     uint64_t put_len, put_hash;   /* bytes handed to REQUEST_FILE_DATA for a PUT body (htp_file_t source HTP_FILE_PUT) */
     uint64_t raw_hash[4];     /* running hash of the concatenated raw header/trailer data (req hdr, req trl, res hdr, res trl) */
     uint64_t raw_len[4];
@@ -54,6 +56,7 @@ typedef struct hx_runctx {
     int failed_calls[2];
     int closed;
     int64_t offered[2];       /* sum of len over data calls that the entry guards let through */
+    int64_t offered_before[2]; /* value of offered[] before the data call that is running */
     chunk *q[2]; int qh[2], qn[2], qcap[2];
     int susp[2];
     int zero_rounds;
@@ -63,6 +66,7 @@ typedef struct hx_runctx {
     uint32_t cb_in_call;
     int dump_flags;
     int cb_failed;            /* a scripted non-OK callback return has fired */
+    struct { int64_t drec; uint32_t calls; } dec[8];   /* decompressors seen through trace site 8 */
     hx_buf mem;               /* "[completed,live_bytes,live_blocks]" samples */
     uint64_t mem_n;
     int64_t base_bytes, base_blocks;
@@ -246,6 +250,7 @@ static void dump_tx(runctx *x, txrec *t) {
               (int) tx->request_progress, (int) tx->response_progress, tx->req_header_repetitions, tx->res_header_repetitions);
     hb_puts(b, ",\"req_body\":"); dump_body(x, b, t, 0);
     hb_puts(b, ",\"res_body\":"); dump_body(x, b, t, 1);
+    hb_printf(b, ",\"tx_trace\":%u", t->trace);
     hb_printf(b, ",\"put_file\":[%llu,\"%016llx\"]", (unsigned long long) t->put_len, (unsigned long long) t->put_hash);
     hb_printf(b, ",\"txc\":%d,\"raw\":[%llu,%llu,%llu,%llu],\"raw_h\":\"%016llx%016llx%016llx%016llx\"", t->txc_count,
               (unsigned long long) t->raw_len[0], (unsigned long long) t->raw_len[1], (unsigned long long) t->raw_len[2], (unsigned long long) t->raw_len[3],
@@ -369,6 +374,11 @@ static txrec *on_tx_event2(runctx *x, int hk, htp_tx_t *tx, int side, int rank, 
             if (!found) viol(x, "C01", "unknown_tx_in_callback", "%s for a tx that is not in the connection", hx_hook_name[hk]);
         }
     }
+    if (!t->started[side] && hk != HK_TRANSACTION_COMPLETE && hk != HK_LOG) {
+        t->started[side] = 1;
+        int dcur = x->cur_dir == 1 ? 0 : (x->cur_dir == 2 ? 1 : side);
+        t->offered_at_start[side] = (dcur == side) ? x->offered_before[side] : x->offered[side];
+    }
     CHECK(x);
     if (t->txc_count > 0 && hk != HK_TRANSACTION_COMPLETE)
         viol_tx(x, t, "C05", "callback_after_tx_complete", hx_hook_name[hk]);
@@ -430,7 +440,12 @@ TXCB(cb_request_start, HK_REQUEST_START, 0, RK_START, 1)
 TXCB(cb_request_uri_normalize, HK_REQUEST_URI_NORMALIZE, 0, RK_URI, 1)
 TXCB(cb_request_line, HK_REQUEST_LINE, 0, RK_LINE, 1)
 TXCB(cb_request_trailer, HK_REQUEST_TRAILER, 0, RK_TRAILER, 1)
-TXCB(cb_response_start, HK_RESPONSE_START, 1, RK_START, 1)
+static int cb_response_start(htp_tx_t *tx) {
+    runctx *x = cur; if (!x) return HTP_OK;
+    memset(x->dec, 0, sizeof x->dec);   /* decompressor objects are per message; their addresses get reused */
+    on_tx_event(x, HK_RESPONSE_START, tx, 1, RK_START, 1);
+    return scripted_rc(x, HK_RESPONSE_START);
+}
 TXCB(cb_response_line, HK_RESPONSE_LINE, 1, RK_LINE, 1)
 TXCB(cb_response_trailer, HK_RESPONSE_TRAILER, 1, RK_TRAILER, 1)
 
@@ -540,6 +555,23 @@ static int data_event(runctx *x, int hk, htp_tx_data_t *d, int side, int is_body
                 if (side == 0) x->r->st.body_bytes_req += d->len; else x->r->st.body_bytes_res += d->len;
             }
             if (t->complete_cb[side]) { CHECK(x); viol_tx(x, t, "C05", "body_after_complete", hx_hook_name[hk]); }
+            /* C07 bomb containment: decoded bytes delivered for one message never exceed
+             * max(bomb limit, 2048 x compressed bytes) by more than one output buffer (8192).  "Compressed bytes" is
+             * taken generously from the harness's own ledger: everything offered to this direction since the call in
+             * which this message started. */
+            int coded = side == 0 ? (d->tx->request_content_encoding > HTP_COMPRESSION_NONE)
+                                  : (d->tx->response_content_encoding_processing > HTP_COMPRESSION_NONE);
+            if (coded) {
+                CHECK(x);
+                int64_t lim = x->connp->cfg->compression_bomb_limit;
+                int64_t since = x->offered[side] - t->offered_at_start[side];
+                int64_t bound = (lim > 2048 * since ? lim : 2048 * since) + 8192;
+                if ((int64_t) t->body_bytes[side] > bound) {
+                    char dd[160];
+                    snprintf(dd, sizeof dd, "%llu decoded bytes delivered, bound max(%lld, 2048 x %lld) + 8192", (unsigned long long) t->body_bytes[side], (long long) lim, (long long) since);
+                    viol_tx(x, t, "C07", side ? "res_bomb_bound" : "req_bomb_bound", dd);
+                }
+            }
         } else {
             /* raw header/trailer data: only required not to follow TRANSACTION_COMPLETE (checked in on_tx_event);
              * position relative to the phase hooks is recorded, not judged (DESIGN.md C05) */
@@ -615,10 +647,20 @@ void htp_verif_trace(const void *connp, int site, int64_t a, int64_t b) {
     if (!x || site < 0 || site >= 16) return;
     x->r->trace_mask |= 1ull << site;
     x->r->st.trace_sites[site]++;
-    if (a != 0) {
-        txrec *t = tx_find(x, (htp_tx_t *) (intptr_t) a);
-        if (t) t->trace |= 1u << site;
+    txrec *t = a != 0 ? tx_find(x, (htp_tx_t *) (intptr_t) a) : NULL;
+    if (site == 8 || site == 3) {
+        /* site 8: a decompressor is handed a data chunk; site 3: it is about to restart in another mode or to
+         * give up and pass the *current* chunk through.  If it had already been fed earlier chunks, those bytes
+         * are gone (known finding KF-C07-restart-loses-prefix): flag the tx with pseudo-site 9. */
+        int k = -1;
+        for (int i = 0; i < 8; i++) if (x->dec[i].drec == b) k = i;
+        if (k < 0) { for (int i = 0; i < 8; i++) if (x->dec[i].drec == 0) { k = i; x->dec[i].drec = b; x->dec[i].calls = 0; break; } }
+        if (k < 0) { k = 0; x->dec[0].drec = b; x->dec[0].calls = 0; }
+        if (site == 8) x->dec[k].calls++;
+        else if (x->dec[k].calls > 1 && t) { t->trace |= 1u << 9; x->r->trace_mask |= 1ull << 9; x->r->st.trace_sites[9]++; }
+        if (site == 8) return;
     }
+    if (t) t->trace |= 1u << site;
 }
 
 /* ------------------------------------------------------------------ configuration */
@@ -790,6 +832,7 @@ static int feed(runctx *x, int d) {
     x->cb_in_call = 0;
     if (x->failed[d]) { x->failed_calls[d]++; if (d == 0) x->r->st.sticky_in++; else x->r->st.sticky_out++; if (x->failed_calls[d] == 1) x->r->st.sticky_seq++; }
     if (c->gap) x->r->st.gaps++;
+    x->offered_before[d] = x->offered[d];
     if (!guard_skip) x->offered[d] += (int64_t) len;
     int rc = d == 0 ? htp_connp_req_data(p, &tv, data, len) : htp_connp_res_data(p, &tv, data, len);
     size_t consumed = d == 0 ? htp_connp_req_data_consumed(p) : htp_connp_res_data_consumed(p);
